@@ -68,13 +68,17 @@ CHECKS = {
          "longer ones with generated and mutated programs run in children forked from a process that never created a parser; "
          "results must equal those of a fresh process and failing parses must leave scope and tables untouched.",
          TRUST, "DESIGN.md 5 C09"),
+ "C19": ("property-based round-trip of the legacy parser (generated F77/F90 programs; print/parse/print fixpoint, block structure and expression-text oracles)",
+         "Generated F77/F90 programs in free and fixed form, analyze on/off: fparser1's regenerated source must re-parse to "
+         "the same statements and block structure, the nesting must equal the generator's, and expression texts must "
+         "survive verbatim.", TRUST, "DESIGN.md 5 C19"),
+ "C20": ("scaling-relation testing over size-indexed program families with a deterministic work counter (catalogue + generated nest recipes)",
+         "For 37 catalogue families and drawn nest recipes the number of rule constructions at size 2n must stay below "
+         "4x that at size n plus a constant; parses are capped at 5e6 constructions.",
+         TRUST + " The counter wraps Base.__new__ from the harness.", "DESIGN.md 5 C20"),
  "C01": ("property-based round-trip (Hypothesis-driven program generator; parse/print/parse fixpoint oracle)",
          "Random programs from a structured Fortran generator are parsed, printed, re-parsed and re-printed; "
          "trees and texts must agree. Exploration is the right level: the domain is an infinite grammar.",
          TRUST, "DESIGN.md 5 C01"),
 }
-NOT_APPLICABLE = {
- pid: "check not built yet (work in progress; see DESIGN.md 5)" for pid in
- [
-  "C19", "C20"]
-}
+NOT_APPLICABLE = {}
